@@ -25,6 +25,15 @@ Universes (what the Python value behind `k/p/b` is — see `real_value` in corr_
   unhash  key=x[0], KeyedSet[list,str]:         0 ["k<k>",p]  1 ("k<k>",p)  2 [k,p]  3 "k<k>"  4 int k  5 []  6 ["",p]
   ambig   key=x//10, KeyedSet[int,int]:         0 int 10k+p (int 0: falsy item, falsy key)  4 "k<k>"
   bylen   key=len, KeyedSet[list,int]:          0 list of length k ([] / [p] / [p,0])  1 the same as a tuple  3 int k
+  tab     TABLE-DRIVEN universe for sets parameterised with rich types (`rec pair opt lit bnd` in corr_C14.py:
+          KeyedSet[Dict[str, Any], str], KeyedSet[Tuple[Any, int], tuple[str, Any]], Tuple/Union/Optional,
+          Literal, bounded(...)). The harness keeps a pool of Python values per universe; a token is
+            k = key code of `key(x)` (>= 0), or -1 / -2 / -3: the key function raises TypeError / IndexError / KeyError
+            p = index of the value in the pool
+            b = flags: bit0 the value conforms to T; bit1 hashable; bit2 the value, used as a key, conforms to K
+          and the key code of the pool value number q is 6000 + 10q + (1 if it conforms to K else 0). Whether a value
+          conforms to T / K is decided by the harness's own reference checker (`ref_conforms`, NOT
+          spec_classes.check_type), so `okItem` / `okKey` below only read the bits.
 -/
 open SpecVerif.Py SpecVerif.C14
 
@@ -46,18 +55,36 @@ def parseVal (s : String) : Option Val :=
 def parseVals (s : String) : Option (List Val) :=
   if s == "" then some [] else (s.splitOn ",").mapM parseVal
 
-inductive Univ | self | tuple | spec | unhash | ambig | bylen
+inductive Univ | self | tuple | spec | unhash | ambig | bylen | tab
   deriving DecidableEq
 
 def parseUniv : String → Option Univ
   | "self" => some .self | "tuple" => some .tuple | "spec" => some .spec
-  | "unhash" => some .unhash | "ambig" => some .ambig | "bylen" => some .bylen | _ => none
+  | "unhash" => some .unhash | "ambig" => some .ambig | "bylen" => some .bylen
+  | "rec" => some .tab | "pair" => some .tab | "opt" => some .tab | "lit" => some .tab | "bnd" => some .tab
+  | "tab" => some .tab | _ => none
 
 def isStrKey (c : Int) : Bool := (0 ≤ c && c < 1000) || c == 3000 || c == 3001
 def isIntKey (c : Int) : Bool := 2000 ≤ c && c < 3000
 
+def tabBit (x : Val) (i : Nat) : Bool := (x.b / 2 ^ i) % 2 == 1
+
+/-- the table-driven universe: everything is read off the token (see the header) -/
+def tabCfg (typed : Bool) : Cfg Val Int :=
+  { keyOf := fun x =>
+      if 0 ≤ x.k then .ok x.k
+      else if x.k == -2 then .error .indexError
+      else if x.k == -3 then .error .keyError
+      else .error .typeError
+    asKey := fun x => if tabBit x 1 then some (6000 + 10 * (x.p : Int) + (if tabBit x 2 then 1 else 0)) else none
+    hashable := fun x => tabBit x 1
+    typed := typed
+    okItem := fun x => tabBit x 0
+    okKey := fun c => c % 10 == 1 }
+
 def mkCfg (u : Univ) (typed : Bool) : Cfg Val Int :=
   match u with
+  | .tab => tabCfg typed
   | .self =>
     { keyOf := fun x => match x.b with
         | 0 => .ok x.k | 1 => .ok (2000 + x.k) | 6 => .ok 3001 | _ => .error .typeError
